@@ -350,7 +350,7 @@ r_buf_rpos_check(r_buf_p r_buf, r_buf_rpos_p rpos, size_t *drop_size_ret) {
 	//    r_buf->round_num, r_buf->iov_index, rpos->round_num, rpos->iov_index);
 
 	/* Calc dropped size. */
-	if (((size_t)(rpos->round_num + 1)) >= r_buf->round_num) { /* rpos > wpos */
+	if ((r_buf->round_num - rpos->round_num) > (((size_t)~0) >> 1)) { /* rpos > wpos, round_num wrap safe. */
 		drop_size = 0;
 	} else { /* rpos << wpos: wery slow reader. */
 		/* Reader round tail + full rounds + current round head. */
